@@ -8,7 +8,26 @@ func Ctx(g *G, nprog, steps int) []Program {
 	var out []Program
 	regs := []string{"r0", "r1", "r2", "r3"}
 	for i := 0; i < nprog; i++ {
-		g.Emit(M{"op": "Ctx.New", "c": "c0", "p": g.Pick(0, 1, 2, 5, 16, 34, g.Prec()), "m": g.Mode()})
+		cp := g.Pick(0, 1, 2, 5, 16, 34, g.Prec())
+		g.Emit(M{"op": "Ctx.New", "c": "c0", "p": cp, "m": g.Mode()})
+		// before anything can latch the context: every wrapper once on operands with more digits than the context holds,
+		// receiver distinct from and equal to the operand (c.Set(z, z) is the idiom for rounding a value in place)
+		{
+			n := cp
+			if n == 0 {
+				n = 34
+			}
+			for _, op := range []string{"Set", "Set", "Neg", "Abs", "Add", "Mul"} {
+				g.Load("r0", g.Bool(), g.Digits(n+1+g.R.Intn(8)), int64(g.R.Intn(9)-4), 0, g.Mode())
+				g.Load("r1", g.Bool(), g.Digits(n+1+g.R.Intn(8)), int64(g.R.Intn(9)-4), 0, g.Mode())
+				z := g.PickS("r0", "r2")
+				if op == "Set" || op == "Neg" || op == "Abs" {
+					g.Emit(M{"op": "Ctx." + op, "c": "c0", "z": z, "x": "r0"})
+				} else {
+					g.Emit(M{"op": "Ctx." + op, "c": "c0", "z": "r2", "x": "r0", "y": "r1"})
+				}
+			}
+		}
 		for _, r := range regs[:3] {
 			if g.R.Intn(3) == 0 {
 				g.loadClass(r, classes[g.R.Intn(6)], 0)
